@@ -50,6 +50,18 @@ def _c04_sweep(n, k):
 PROPS['C04']['level'] = 'fault_enumeration'
 PROPS['C04']['legs']['quick'].append(dict(scenario='C04', runs=0, budget=300, tag='sweep', sweep=_c04_sweep(4, 2)))
 PROPS['C04']['legs']['thorough'].append(dict(scenario='C04', runs=0, budget=3000, tag='sweep', sweep=_c04_sweep(6, 3)))
+def _c08_sweep(n, k):
+    P, A = 2 * n, 4
+    total, c, a = 0, 1, 1
+    for j in range(k + 1):
+        total += c * a
+        c = c * (P - j) // (j + 1)
+        a *= A
+    return dict(params=dict(c08_sweep=1, sweep_n=n, sweep_k=k), size=total * 6,
+                text=f'{{Shutdown called by A, by B}} x {{one-sided, crossed at once, crossed 5 ms later}} x every placement of at most {k} faults from {{drop, duplicate, delay past the next retransmission, swap with successor}} on the first {n} packets of each direction emitted after Shutdown was invoked (writers finished before)')
+PROPS['C08']['legs']['quick'].append(dict(scenario='C08', runs=0, budget=300, tag='sweep', sweep=_c08_sweep(4, 2)))
+PROPS['C08']['legs']['thorough'].append(dict(scenario='C08', runs=0, budget=3000, tag='sweep', sweep=_c08_sweep(6, 3)))
+PROPS['C08']['level'] = 'fault_enumeration'
 _C09_SWEEP = 'for each base workload (one seed: configuration, workload, schedule): every crash kind {Close, Abort, transport read error, transport write error, conn.Close, two concurrent Close, Close after Abort} x crashed side {A, B} x every wire event (packet emission) of the fault-free reference pass of that seed as the crash point'
 PROPS['C09']['legs']['quick'].append(dict(scenario='C09', runs=32, budget=300, tag='sweep', params={'crash_sweep': 1}, crash_sweep=_C09_SWEEP))
 PROPS['C09']['legs']['thorough'].append(dict(scenario='C09', runs=1600, budget=3000, tag='sweep', params={'crash_sweep': 1}, crash_sweep=_C09_SWEEP))
@@ -120,7 +132,7 @@ MANIFEST_TEXT.update({
                 note=SIM_NOTE),
     'C08': dict(design_ref='DESIGN.md §5 C08',
                 technique='deterministic simulation: Shutdown at seeded points of a transfer (one-sided and crossed), loss / long partitions during the shutdown sequence, delivery + rejection + closure oracle',
-                text='Seeded exploration: Shutdown is called immediately, mid-transfer or after the writers finished, one-sided or crossed with offsets, under loss/dup/reorder and partitions of up to 400 s; when it returns nil every accepted write must have been read by the peer, writes invoked in a non-established state must be rejected without trace, both ends must reach closed (the second at the latest when its transport closes) and then stay silent for 10 virtual minutes. Evidence, not proof.',
+                text='Seeded exploration: Shutdown is called immediately, mid-transfer or after the writers finished, one-sided or crossed with offsets, under loss/dup/reorder and partitions of up to 400 s; when it returns nil every accepted write must have been read by the peer, writes invoked in a non-established state must be rejected without trace, both ends must reach closed (the second at the latest when its transport closes) and then stay silent for 10 virtual minutes. Systematic leg (this is what the level refers to): one run for every cell of {Shutdown called by A, by B} x {one-sided, crossed at once, crossed 5 ms later} x every placement of at most k faults from {drop, duplicate, delay past the next retransmission, swap with successor} on the first n packets of each direction emitted after Shutdown was invoked (quick n=4, k=2: 2 886 cells; thorough n=6, k=3: 91 110 cells), the cell decoded from the run index, the workload before the shutdown seeded; the evidence reports the sub-space, its size, the cells executed and exhaustive=true only when they are equal. Everything else is seeded sampling. Evidence, not proof.',
                 note=SIM_NOTE),
     'C09': dict(design_ref='DESIGN.md §5 C09',
                 technique='deterministic simulation: crash-point injection (Close / Abort / transport read or write error / conn.Close / concurrent Close); complete enumeration of crash kind x side x wire event of the fault-free reference pass for a set of base workloads, plus seeded crash points at wire-event or scheduling-step granularity',
